@@ -104,8 +104,12 @@ def AU(scope: str, *filt: list, via: str = "class", cache: bool = True) -> dict:
 
 # "rehook": the same function object of hook #0 is registered once more under the same hook name on its dispatcher
 # (e.g. an `install()` helper called twice); `unregister(fn)` must then remove every registration of that function
+# "rereg": the function object of hook #0, after it was unregistered, is registered again through a decorator (by name, or
+# by its function name) with the filters given THIS time - what it was given the first time is gone with the unregistration
 UNREG = [{"t": "unreg", "i": 0}, {"t": "unreg", "i": 1}, {"t": "unreg_all", "scope": "G"}, {"t": "unreg_all", "scope": "S"},
-         {"t": "rehook", "i": 0}]
+         {"t": "rehook", "i": 0},
+         {"t": "rereg", "i": 0, "form": "str", "filter": []}, {"t": "rereg", "i": 0, "form": "fn", "filter": []},
+         {"t": "rereg", "i": 0, "form": "str", "filter": [["apply", {"path": "/b"}]]}]
 
 # forms:  fn          @d.hook / @d.hook.apply_to(..)            (name taken from the function name)
 #         str         @d.hook("name") / @d.hook.apply_to(..)("name")   (filters first, then the name)
@@ -208,6 +212,8 @@ def alphabet(name: str) -> list[dict]:
 
 
 def enabled(prefix: list[dict], action: dict) -> bool:
+    if action["t"] == "rereg":
+        return any(a["t"] in ("unreg", "unreg_all") for a in prefix)
     if action["t"] == "unreg":
         # the target is the i-th hook registration that is not rejected as documented
         return sum(1 for a in prefix if a["t"] == "hook" and not (a["kind"] == "before_process_path" and a["filter"])) > action["i"]
@@ -531,6 +537,18 @@ def apply_action(env: Env, action: dict) -> None:
             return
         reg = env.hook_regs[action["i"]]
         _dispatcher(env, reg["scope"]).register_hook_with_name(reg["fn"], reg["kind"])
+    elif t == "rereg":
+        if action["i"] >= len(env.hook_regs):
+            env.rejected.append("rereg_target_missing")
+            return
+        reg = env.hook_regs[action["i"]]
+        if reg["live"] or reg["scope"] == "T" or (action["form"] == "fn" and reg["form"] not in ("fn", "apply")):
+            # two live registrations of one function with different filters: the text does not say which filter holds;
+            # the by-function-name form needs a function that carries the hook's name
+            env.rejected.append("rereg_not_applicable")
+            return
+        _register_hook(env, reg["fn"], reg["kind"], action["form"], reg["entry"], action["filter"])
+        reg.update({"live": True, "removed_by": None, "own": action["filter"], "form": action["form"], "reregistered": True})
     elif t == "unreg":
         if action["i"] >= len(env.hook_regs):
             env.rejected.append("unregister_target_missing")
@@ -872,6 +890,8 @@ def describe(a: dict) -> str:
         return f"@{ep}(custom, name={a['kind']!r}) on test"
     if a["t"] == "rehook":
         return f"register hook #{a['i']} (same function, same name) again"
+    if a["t"] == "rereg":
+        return f"register the function of hook #{a['i']} again" + (" by name" if a["form"] == "str" else " by function name") + (filt(a["filter"]) or " without filters")
     if a["t"] == "unreg":
         return f"unregister(hook #{a['i']})"
     if a["t"] == "unreg_all":
